@@ -236,7 +236,9 @@ C(f"{F}:Parser.check_version#wf", params={**P, "min_version": "version", "error_
 
 # ---------------------------------------------------------------------------------------------- subprocess argument pieces (C04, C06)
 PIECE = "union[Tok|obj:ast.Starred|obj:PosNode]"
-C(f"{F}:Parser._append_node_or_token", params={"self": "obj:Parser", "tree": "opt[union[obj:ast.Constant|obj:ast.Starred|obj:ast.Tuple|obj:PosNode]]", "cmd": PIECE},
+TREE = "union[obj:ast.Constant|obj:ast.Starred|obj:ast.Tuple|obj:PosNode]"
+C(f"{F}:Parser._append_node_or_token", params={"self": "obj:Parser", "tree": f"opt[{TREE}]", "cmd": PIECE},
+  returns="union[obj:ast.Constant|obj:ast.Tuple|obj:PosNode]", returns_same={"is_none(tree) and not isinstance(cmd, TokenInfo)": "cmd"},
   ensures=[
       # C04/C06: the merged piece spans from where the pieces so far START to where the new piece ENDS (line and column), whatever kinds they are
       "node_end(result) == node_end(cmd)",
@@ -359,3 +361,32 @@ C(f"{F}:Parser.expand_help", params={"self": "obj:Parser", "atoms": "objseq[(obj
            "implies(len(atoms) > 1, isinstance(result.args[0], ast.Attribute) and result.args[0].attr == atoms[len(atoms) - 1][0].id)",
            "implies(len(atoms) > 0, node_start(result) == node_start(atoms[0][0]) and node_end(result) == atoms[len(atoms) - 1][1].end)"],
   raises=[], pure=True, properties=["C05", "C04"])
+
+
+# ---------------------------------------------------------------------------------------------- grouping of subprocess pieces (C06)
+# brk(args, j): piece j does not start where piece j-1 ends.  runs(args, i) / run_begin(args, i): number of maximal runs of adjacent pieces among
+# the first i pieces / index where the run of piece i-1 begins (recursive definitions in contracts/shapes.py).  The ghost `yield_at(y)` is the
+# loop index at the moment y was yielded (len(args) for the final one): run number k is closed by the break at that index.
+AT = "yield_at(yielded[k])"
+RUNK = (f"0 <= run_begin(args, {AT}) and run_begin(args, {AT}) < {AT} and runs(args, {AT}) == k + 1"
+        f" and node_start(yielded[k]) == node_start(args[run_begin(args, {AT})]) and node_end(yielded[k]) == node_end(args[{AT} - 1])")
+C(f"{F}:Parser._proc_args", params={"self": "obj:Parser", "args": f"objseq[{PIECE}]"}, generator=True, yields="node",
+  loops={0: {"types": {"stash": f"opt[{TREE}]"},
+             "inv": ["implies(_i == 0, is_none(stash))", "implies(_i > 0, not is_none(stash))",
+                     "implies(_i > 0, 0 <= run_begin(args, _i) and run_begin(args, _i) < _i)",
+                     "implies(_i > 0, node_end(stash) == node_end(args[_i - 1]) and node_start(stash) == node_start(args[run_begin(args, _i)]))",
+                     "implies(_i > 0, len(yielded) == runs(args, _i) - 1)", "implies(_i == 0, len(yielded) == 0)",
+                     f"all(1 <= {AT} and {AT} < _i and brk(args, {AT}) and {RUNK} for k in range(len(yielded)))"]}},
+  ensures=[
+      # as many arguments as there are maximal runs of adjacent pieces: pieces are merged exactly when they touch
+      "len(yielded) == runs(args, len(args))",
+      # argument k spans its run: from the start of the run's first piece to the end of its last one; the run ends at a break or at the end
+      f"all(1 <= {AT} and {AT} <= len(args) and ({AT} == len(args) or brk(args, {AT})) and {RUNK} for k in range(len(yielded)))",
+  ], raises=[], pure=True, properties=["C06", "C04"])
+
+# the list handed to the subprocess builders is exactly what the grouping generator yields
+_R = lambda t: t.replace("yielded", "result")
+C(f"{F}:Parser.proc_args", params={"self": "obj:Parser", "args": f"objseq[{PIECE}]"},
+  ensures=["len(result) == runs(args, len(args))",
+           _R(f"all(1 <= {AT} and {AT} <= len(args) and ({AT} == len(args) or brk(args, {AT})) and {RUNK} for k in range(len(yielded)))")],
+  raises=[], pure=True, properties=["C06"])
